@@ -38,7 +38,7 @@ func c14First(defs ...c14Def) (string, bool) {
 
 // The value a role sees: user vars over vars over defaults; within one kind the nearest definition; the
 // environment-wide maps (configuration store / user input) are the outermost ancestor; empty is a value.
-//verif:entry HarnessRolePrecedence unwind=16 reach=user,vars,defaults,undefined replace=dario.cat/mergo.Merge=>C14MergeModel
+//verif:entry HarnessRolePrecedence unwind=16 conform=12 reach=user,vars,defaults,undefined replace=dario.cat/mergo.Merge=>C14MergeModel
 func HarnessRolePrecedence() {
 	envD, envV, envU := gera.MakeMap[string, string](), gera.MakeMap[string, string](), gera.MakeMap[string, string]()
 	adapter := NewParentAdapter(
